@@ -81,6 +81,7 @@ import JdProofs.MergePrecision
 import JdProofs.CliExitCodes
 import JdProofs.OptSites
 import JdProps.C01Precision
+import JdProps.C01Void
 
 namespace Jd.Props.C05
 open Jd Jd.Spec
